@@ -170,8 +170,11 @@ def searches(ref, W, k):
 
 def plan(tier, seed):
     combos = [("sparse", "sparse"), ("one-basetype", "dense"), ("sparse", "none")] + ([("full", "sparse"), ("names-only", "dense")] if tier == "thorough" else [])
-    n = 5
-    return {"shards": [{"universe": u, "data": m, "index": i, "count": n} for u, m in combos for i in range(n)]}
+    shards = []
+    for u, m in combos:
+        n = 16 if (tier == "thorough" and u == "sparse" and m == "sparse") else 5
+        shards += [{"universe": u, "data": m, "index": i, "count": n} for i in range(n)]
+    return {"shards": shards}
 
 
 def run_shard(sh):
@@ -181,7 +184,7 @@ def run_shard(sh):
     W = worlds.World(ref, worlds.universes(ref, "thorough")[sh["universe"]], sh["universe"])
     datamap = build(W, sh["data"])
     rec = Recorder(sh["index"], sh["count"], sh["seed"])
-    k = 2 if sh["tier"] == "thorough" else 1
+    k = 2 if (sh["tier"] == "thorough" and sh["universe"] == "sparse" and sh["data"] == "sparse") else 1
     for s in searches(ref, W, k):
         if not rec.mine(sh["universe"] + sh["data"] + "|" + s):
             continue
